@@ -112,7 +112,8 @@ def cases_for(tier: str, seed: int, hists: list[dict]) -> list[dict]:
                             bucket_cap_mb=[25.0, 0.0, 0.00004][i % 3],
                             symmetry=bool(i % 2),
                             gpt={'D': D, 'M': M, 'bias_col': bc,
-                                 'bias_row': br})
+                                 'bias_row': br,
+                                 'model': ['simple', 'deep'][(i // 2) % 2]})
                 cfgd.update(fam['hp'])
                 cases.append({'cfg': cfgd, 'h': h, 'seed': seed * 100 + i,
                               'tlc': i % 3 == 0, 'more_policies': i % 4 == 0})
